@@ -249,6 +249,13 @@ func TestReplay(t *testing.T) {
 	if err := json.Unmarshal(rec.Case, c); err != nil {
 		t.Fatalf("INFRA: case: %v", err)
 	}
+	if rec.Sig == "fixed" {
+		// the witness of a repaired defect is expected to return: give it five times the watchdog of a
+		// generated case, so that a busy machine is not read as the return of a hang
+		q := *p
+		q.CaseTimeout *= 5
+		p = &q
+	}
 	v, hung := RunGuarded(p, c)
 	if v.Sig == "" && v.Excluded == "" && len(v.Tolerated) > 0 {
 		// a replay shows the raw deviation, whether the ledger lists it or not
